@@ -128,15 +128,19 @@ class Out:
     _tid = [0]
     def __init__(self, tree, cfg='default'):
         self.tree, self.cfg, self.cases = tree, cfg, []
-    def triple(self, fam, path, hs=(), entry='proc', order='GHO', version='HTTP/1.1', eol=b'\r\n', lead=b'', body=b''):
+    def triple(self, fam, path, hs=(), entry='proc', order='GHO', version='HTTP/1.1', eol=b'\r\n', lead=b'', body=b'', ws='all', tail=b''):
+        """`order` may name a role more than once (`HHGO`: HEAD twice before the first GET): every HEAD / OPTIONS answer of the triple is
+        judged against every GET answer of it.  `ws`: the write script of the transport (vlib/serve.py).  `tail`: bytes the client sent
+        right behind the request (a second request in the same piece)."""
         Out._tid[0] += 1
         tid = Out._tid[0]
-        for role in order:
+        for n, role in enumerate(order):
             m = ROLE[role]
             raw = None
-            if eol != b'\r\n' or lead:
-                raw = lead + G.req(m, path, version, hs, body, eol)
-            self.cases.append(K.mk(self.tree, m, path, hs, body=body, version=version, entry=entry, raw=raw, kind='triple', note=(tid, role, self.cfg, fam)))
+            if eol != b'\r\n' or lead or tail:
+                raw = lead + G.req(m, path, version, hs, body, eol) + tail
+            self.cases.append(K.mk(self.tree, m, path, hs, body=body, version=version, entry=entry, raw=raw, ws=ws, kind='triple',
+                                   note=(tid, role, self.cfg, fam, n, bool(tail))))
 
 def ranges_for(n):
     """Range values around a body of n bytes (n None: size not known to the generator)"""
@@ -280,11 +284,24 @@ def clone(t):
     return n
 
 def split(tree, cases, maxn):
-    """one batch per at most maxn cases (whole triples), each on a clone of the tree"""
+    """one batch per at most maxn cases (whole triples: a triple may have more than three cases), each on a clone of the tree"""
     if len(cases) <= maxn: return [(tree, cases)]
     k = -(-len(cases) // maxn)
-    per = -(-len(cases) // (3 * k)) * 3
-    return [((tree if i == 0 else clone(tree)), cases[i:i + per]) for i in range(0, len(cases), per)]
+    per = -(-len(cases) // k)
+    out, cur = [], []
+    for i, c in enumerate(cases):
+        if len(cur) >= per and c.note[0] != cases[i - 1].note[0]:
+            out.append(cur); cur = []
+        cur.append(c)
+    if cur: out.append(cur)
+    res = []
+    for i, cs in enumerate(out):
+        t = tree if i == 0 else clone(tree)
+        for c in cs: c.tree = t
+        res.append((t, cs))
+    return res
+
+NO_MODEL = ('special',)      # groups whose trees reach into the machine's own file system (/proc, a sparse file): the model does not have it
 
 def run_groups(groups, with_model):
     """groups: [(configuration key, [(tree, cases)])]; every configuration is one run_batches call (the environment is process state),
@@ -293,8 +310,381 @@ def run_groups(groups, with_model):
     out = [None] * len(groups)
     def work(i):
         cfg, batches = groups[i]
-        out[i] = K.run_batches(batches, with_model=with_model, env=ENVS[cfg])
+        out[i] = K.run_batches(batches, with_model=with_model and cfg not in NO_MODEL, env=ENVS[cfg])
     ts = [threading.Thread(target=work, args=(i,)) for i in range(len(groups))]
     for t in ts: t.start()
     for t in ts: t.join()
     return [x for r in out for x in r]
+
+# ====================================================================== second audit pass
+# Features a maintainer of a static web server plausibly adds on the HEAD / OPTIONS / GET path, and for each the RELATION between
+# two inputs that exposes a careless implementation (the table is in audit/C09/AUDIT2.md):
+#   a header the server ignores today x the kind of path x the method;  a file and its NEIGHBOUR (precompressed side file, header
+#   side file);  the CONTENT of a file and what a rewriting step does to it (HEAD announces a length, GET sends a body);  the FIRST
+#   request for a path being a HEAD or OPTIONS;  Host / Forwarded next to Origin;  what the transport takes per write call and what
+#   follows the request in the same piece;  files of the machine itself behind links (/proc, devices, a sparse file beyond 2^31).
+
+ENVS.update({
+    # the restricted mode with LONG lists: the asking origin in the middle and at the end, namesakes that share a prefix with it
+    'listed-many': _env(ALLOW_ALL='false', ALLOW_ORIGINS=','.join(['http://o.exampl', 'http://o.example.evil.test', 'https://o.example', 'http://a.example', 'http://b.example:8080',
+                                                                  'http://o.example', 'null', 'http://c.example', 'http://app.example:8443', 'https://app.example', 'https://app.example:8443']),
+                        ALLOW_CREDENTIALS='true', ALLOW_HEADERS='Accept,Authorization,X-Custom,Content-Type,x-one,X-Requested-With', ALLOW_METHODS='OPTIONS,HEAD,GET,PUT,DELETE,POST,PATCH',
+                        EXPOSE_HEADERS='Content-Length,ETag', MAX_AGE='600'),
+    # allow-all WITH lists that do not name the asker: "this setting won't apply if cors allow_all set to true" (rws.config.toml)
+    'all-with-lists': _env(ALLOW_ALL='true', ALLOW_ORIGINS='http://other.example', ALLOW_CREDENTIALS='false', ALLOW_HEADERS='accept', ALLOW_METHODS='GET', EXPOSE_HEADERS='', MAX_AGE='1'),
+    'special': None, 'features': None,
+})
+ALLOW_ALL_CFGS = ALLOW_ALL_CFGS + ('all-with-lists', 'special')
+CFG_LISTS = {'listed-many': (CFG_ORIGINS, CFG_METHODS + ['OPTIONS', 'HEAD'], CFG_HEADERS + ['Accept', 'Authorization', 'X-Requested-With'])}
+
+def gz(data):
+    import gzip
+    return gzip.compress(data, 6, mtime=0)
+
+def text(n, salt=0):
+    """n bytes of text that compresses well"""
+    words = [b'static', b'file', b'server', b'header', b'range', b'content', b'length', b'head', b'options', b'origin', b'preflight', b'index']
+    out, i = b'', salt
+    while len(out) < n:
+        out += words[i % len(words)] + (b' ' if i % 9 else b'\n'); i += 1
+    return out[:n]
+
+FULL_HTML = (b'<!DOCTYPE html>\n<html lang="en">\n<head>\n  <meta charset="utf-8">\n  <title>full</title>\n  <link rel="stylesheet" href="/style.css">\n</head>\n'
+             b'<body>\n  <!-- a comment -->\n  <h1>Full   document</h1>\n  <script src="/script.js"></script>\n</body>\n</html>\n')
+FUTURE, PAST = 'Fri, 01 Jan 2100 00:00:00 GMT', 'Sat, 01 Jan 2000 00:00:00 GMT'
+
+def extend_tree2(rng, t, k):
+    """plants the neighbours, contents and names the features of the second pass hinge on, below /c9n (and a few links to the machine's
+    own devices); returns {group: [(target, size of the body GET serves today | None, kind)]}"""
+    root = t.cwd + b'/'
+    Gp = {}
+    def f(group, rel, content, kind='file', target=None, serve=True):
+        t.file(root + rel, content)
+        if serve: Gp.setdefault(group, []).append((target or '/' + rel.decode('utf-8', 'surrogateescape'), len(content), kind))
+    def also(group, target, n, kind): Gp.setdefault(group, []).append((target, n, kind))
+    # --- a file and its precompressed / descriptive neighbours (side file older: planted BEFORE the file; newer: after it)
+    plain = text(1500, 1)
+    # older than the file and made from other text: the side file is the FIRST file of the whole tree that is written, the file itself the last one
+    # (the harness writes the files in this order; a file system with coarse time stamps needs the distance)
+    t.files = {root + b'c9n/old.css.gz': gz(text(900, 5)), root + b'c9n/fresh/old.txt.gz': gz(b'made from an older text'), **t.files}
+    also('side', '/c9n/old.css', 1200, 'side-older')
+    f('side', b'c9n/text.txt', plain, 'side-newer')
+    t.file(root + b'c9n/text.txt.gz', gz(plain)); t.file(root + b'c9n/text.txt.br', b'\x1b\xdb\x05 not really brotli')
+    f('side', b'c9n/doc.html', FULL_HTML, 'side-page'); also('side', '/c9n/doc', len(FULL_HTML), 'side-fallback')
+    t.file(root + b'c9n/doc.html.gz', gz(FULL_HTML)); t.file(root + b'c9n/doc.gz', gz(b'not the page'))
+    idx = b'<!DOCTYPE html><html><head><title>site</title></head><body>' + text(700, 3) + b'</body></html>'
+    t.file(root + b'c9n/site/index.html', idx); t.file(root + b'c9n/site/index.html.gz', gz(idx))
+    also('side', '/c9n/site/', len(idx), 'side-dir/'); also('side', '/c9n/site', len(idx), 'side-dir')
+    t.file(root + b'c9n/only.js.gz', gz(b'var only = 1;')); also('side', '/c9n/only.js', None, 'side-without-file')
+    f('side', b'c9n/none.txt', b'', 'side-larger-than-empty-file'); t.file(root + b'c9n/none.txt.gz', gz(b''))
+    also('side', '/c9n/text.txt.gz', len(gz(plain)), 'side-itself')
+    f('side', b'c9n/fake.svg', b'<svg xmlns="http://www.w3.org/2000/svg">' + text(1100, 4) + b'</svg>', 'side-not-compressed')
+    t.file(root + b'c9n/fake.svg.gz', b'this is not gzip at all')
+    for ext, c in ((b'.headers', b'X-Side: 1\nCache-Control: max-age=60\n'), (b'.meta', b'{"content-type": "text/x-side"}'), (b'.etag', b'"side-etag"'), (b'.md5', b'0' * 32), (b'.sha256', b'0' * 64)):
+        t.file(root + b'c9n/text.txt' + ext, c)
+    t.file(root + b'c9n/_headers', b'/c9n/*\n  X-Dir: 1\n'); t.file(root + b'c9n/.htaccess', b'Header set X-Dir "1"\n'); t.file(root + b'c9n/.headers', b'X-Dir: 1\n')
+    # --- sizes around the thresholds a compress-on-the-fly step is given (20, 150, 256, 860, 1024, 1400 bytes), in the media types it picks
+    for n, nm in ((19, b't19.txt'), (150, b't150.css'), (256, b't256.html'), (860, b't860.js'), (1023, b't1023.txt'), (1024, b't1024.json'), (1025, b't1025.txt'), (1400, b't1400.svg'), (3000, b't3000.html'), (9000, b't9000.css')):
+        f('size', b'c9n/' + nm, text(n, n), 'size-%d' % n)
+    # --- contents a rewriting step touches: GET sends what was rewritten, HEAD announces a length
+    f('content', b'c9n/full.html', FULL_HTML, 'html-document')
+    f('content', b'c9n/bom.txt', b'\xef\xbb\xbfbyte order mark first\n', 'bom')
+    f('content', b'c9n/bom.html', b'\xef\xbb\xbf<html><body>bom</body></html>', 'bom')
+    f('content', b'c9n/crlf.txt', b'line one\r\nline two\r\n\r\nline four\r\n', 'crlf')
+    f('content', b'c9n/ssi.html', b'<html><body><!--#include virtual="/c9/ten.txt" --><!--#echo var="DATE_LOCAL" --></body></html>', 'include')
+    f('content', b'c9n/ssi.shtml', b'<!--#include file="text.txt" -->', 'include')
+    f('content', b'c9n/tmpl.html', b'<html><head><title>{{ title }}</title></head><body><%= body %> ${user} {% include "x" %}</body></html>', 'template')
+    f('content', b'c9n/readme.md', b'# Title\n\n* item *one*\n* item **two**\n\n[link](/c9/page)\n', 'markdown')
+    f('content', b'c9n/latin1.txt', b'caf\xe9 cr\xe8me \xff\xfe', 'not-utf-8')
+    f('content', b'c9n/utf16.txt', '﻿wide text'.encode('utf-16-le'), 'utf-16')
+    f('content', b'c9n/nul.txt', b'a\x00b\x00\x00c', 'nul-bytes')
+    f('content', b'c9n/min.css', b'/* comment */\nbody  {\n    margin : 0 ;\n}\n\n\n', 'minify')
+    f('content', b'c9n/pretty.json', b'{\n  "a" : 1,\n  "b" : [ 1, 2, 3 ]\n}\n', 'minify')
+    f('content', b'c9n/app.js', b'// comment\nfunction  f ( a ) {\n  return a ;\n}\n//# sourceMappingURL=app.js.map\n', 'minify')
+    t.file(root + b'c9n/app.js.map', b'{"version":3}')
+    f('content', b'c9n/spaces.txt', b'   \n\t\n  ', 'blank')
+    f('content', b'c9n/feed.xml', b'<?xml version="1.0" encoding="UTF-8"?>\n<feed><entry/></feed>\n', 'xml')
+    f('content', b'c9n/http.txt', b'HTTP/1.1 200 OK\r\nContent-Length: 0\r\n\r\n', 'looks-like-an-answer')
+    # --- names: characters that are escaped in a target, two names that differ in case only, the escaped spellings of plain names
+    for nm in (b'100%.txt', b'plus+.txt', b'tilde~.txt', b'comma,x.txt', b'eq=.txt', b'at@.txt', b'paren(1).txt', b'colon:.txt', b'excl!.txt', b'star*.txt', b'Case.TXT', b'case.txt',
+               b'\xd0\xb4.txt', b'caf\xc3\xa9.html', b'%41.txt', b'A.txt', b'dot..txt', b'two.dots.tar.gz', b'-dash.txt', b'~user.txt'):
+        f('name', b'c9n/n/' + nm, b'name:' + nm, 'name')
+    also('name', '/c9n/n/café', 14, 'name-fallback')
+    for tg in ('/c9n/n/100%25.txt', '/c9n/n/plus%2B.txt', '/c9n/n/%41.txt', '/c9n/n/%2541.txt', '/c9n/n/%74ilde~.txt', '/c9n/n/tilde%7E.txt', '/c9n/n/%D0%B4.txt', '/c9n/n/%d0%b4.txt', '/c9n/n/caf%C3%A9',
+               '/c9n%2Fn%2FA.txt', '/c9n/n/CASE.TXT', '/c9n/n/Case.txt', '/c9n/n/a.txt', '/c9n/n/A.TXT', '/c9n/n/A%2Etxt', '/c9n/n/A.txt%20', '/c9n/n/A.txt.', '/c9n/n/A.txt::$DATA', '/C9N/n/A.txt'):
+        also('escaped', tg, None, 'escaped')
+    # --- directories: files but no index; other default documents; a listing would have to escape these names
+    t.file(root + b'c9n/list/one.txt', b'1'); t.file(root + b'c9n/list/<b>&amp;.txt', b'2'); t.file(root + b'c9n/list/sub/three.txt', b'3'); t.dir(root + b'c9n/list/empty')
+    t.file(root + b'c9n/htm/index.htm', b'<p>index.htm</p>'); t.file(root + b'c9n/dflt/default.html', b'<p>default</p>'); t.file(root + b'c9n/both/index.htm', b'<p>htm</p>')
+    t.file(root + b'c9n/both/index.html', b'<p>html</p>'); also('dirs', '/c9n/both/', 11, 'dir/'); also('dirs', '/c9n/both', 11, 'dir')
+    t.file(root + b'c9n/md/README.md', b'# readme'); t.file(root + b'c9n/md/index.md', b'# index')
+    for tg in ('/c9n/list/', '/c9n/list', '/c9n/list/sub/', '/c9n/list/empty/', '/c9n/htm/', '/c9n/htm', '/c9n/dflt/', '/c9n/md/', '/c9n/', '/c9n'):
+        also('dirs', tg, None, 'dir-without-index')
+    # --- paths nobody has asked for before the family `first` does
+    for i in range(12):
+        f('fresh', b'c9n/fresh/f%d.txt' % i, b'fresh %d ' % i + text(40 * i, i), 'fresh-file')
+    for i in range(4):
+        t.file(root + b'c9n/fresh/d%d/index.html' % i, b'<p>fresh index %d</p>' % i); also('fresh', '/c9n/fresh/d%d' % i + ('/' if i % 2 else ''), 20, 'fresh-dir')
+        t.file(root + b'c9n/fresh/p%d.html' % i, b'<p>fresh page %d</p>' % i); also('fresh', '/c9n/fresh/p%d' % i, 19, 'fresh-fallback')
+        t.file(root + b'c9n/fresh/z%d.txt' % i, plain); t.file(root + b'c9n/fresh/z%d.txt.gz' % i, gz(b'stale ' + plain)); also('fresh', '/c9n/fresh/z%d.txt' % i, len(plain), 'fresh-side')
+        t.link(root + b'c9n/fresh/l%d' % i, b'p%d.html' % i); also('fresh', '/c9n/fresh/l%d' % i, 19, 'fresh-link')
+    # --- what is not a regular file: devices behind links (directly, as a page, as an index), a link to nothing, a link to itself, a directory that contains itself
+    for nm, tgt in ((b'null.txt', b'/dev/null'), (b'zero.bin', b'/dev/zero'), (b'full', b'/dev/full'), (b'nullpage.html', b'/dev/null'), (b'gone.txt', b'nowhere.txt'), (b'loop.txt', b'loop.txt')):
+        t.link(root + b'c9n/dev/' + nm, tgt)
+    t.link(root + b'c9n/dev/idx/index.html', b'/dev/null'); t.link(root + b'c9n/dev/devices', b'/dev'); t.file(root + b'c9n/dev/real.txt', b'a regular file next to the links')
+    for tg in ('/c9n/dev/null.txt', '/c9n/dev/zero.bin', '/c9n/dev/full', '/c9n/dev/nullpage', '/c9n/dev/nullpage.html', '/c9n/dev/idx/', '/c9n/dev/idx', '/c9n/dev/devices/null', '/c9n/dev/devices/',
+               '/c9n/dev/gone.txt', '/c9n/dev/loop.txt'):
+        also('special', tg, None, 'not-a-regular-file')
+    also('special', '/c9n/dev/real.txt', 32, 'file')
+    t.file(root + b'c9n/old.css', text(1200, 2)); t.file(root + b'c9n/fresh/old.txt', text(300, 6)); also('fresh', '/c9n/fresh/old.txt', 300, 'fresh-side')
+    t.c9n = Gp
+    return Gp
+
+# ------------------------------------------------------------------ headers the server ignores today
+def feature_sets():
+    """[(feature, activating?, headers, body)]: one header (or a pair that belongs together) of a feature the server does not have today.
+    `activating` marks the values under which a careless implementation of the feature takes its new branch on ANY file."""
+    S_ = []
+    def a(feat, hs, hot=False, body=b''): S_.append((feat, hot, hs, body))
+    # conditional requests: a validator that matches whatever the file is / never matches
+    a('conditional', [('If-None-Match', '*')], True); a('conditional', [('If-Modified-Since', FUTURE)], True)
+    a('conditional', [('If-Modified-Since', PAST)]); a('conditional', [('If-Unmodified-Since', PAST)], True); a('conditional', [('If-Unmodified-Since', FUTURE)])
+    a('conditional', [('If-Match', '"no-such-tag"')], True); a('conditional', [('If-Match', '*')]); a('conditional', [('If-None-Match', '"x", W/"y"')]); a('conditional', [('If-None-Match', 'W/"x"')])
+    a('conditional', [('If-Modified-Since', 'yesterday')]); a('conditional', [('If-Modified-Since', '0')]); a('conditional', [('If-Modified-Since', '99999999999999999999')])
+    a('conditional', [('If-None-Match', '*'), ('If-Modified-Since', PAST)]); a('conditional', [('if-none-match', '*')]); a('conditional', [('IF-MODIFIED-SINCE', FUTURE)])
+    a('conditional', [('If-Modified-Since-Unix-Epoch-Nanos', '99999999999999999999')]); a('conditional', [('If-Modified-Since-Unix-Epoch-Nanos', '4102444800000000000')], True)
+    a('conditional', [('If-Unmodified-Since-Unix-Epoch-Nanos', '1')]); a('conditional', [('Last-Modified-Unix-Epoch-Nanos', '4102444800000000000')])
+    # a range under a condition
+    a('if-range', [('Range', 'bytes=0-0'), ('If-Range', FUTURE)]); a('if-range', [('Range', 'bytes=0-0'), ('If-Range', PAST)], True); a('if-range', [('Range', 'bytes=1-'), ('If-Range', '"no-such-tag"')], True)
+    a('if-range', [('If-Range', 'W/"x"'), ('Range', 'bytes=-1')]); a('if-range', [('Range', 'bytes=0-0,1-1'), ('If-Range', PAST)]); a('if-range', [('Range', 'bytes=0-0'), ('If-None-Match', '*')], True)
+    a('if-range', [('Range', 'bytes=0-0'), ('If-Match', '"no-such-tag"')]); a('if-range', [('Range', 'bytes=0-0'), ('If-Unmodified-Since', PAST)]); a('if-range', [('If-Range', PAST)])
+    # content codings
+    a('coding', [('Accept-Encoding', 'gzip')], True); a('coding', [('Accept-Encoding', 'gzip, deflate, br')], True); a('coding', [('Accept-Encoding', 'br')], True); a('coding', [('Accept-Encoding', 'identity')])
+    a('coding', [('Accept-Encoding', 'gzip;q=0')]); a('coding', [('Accept-Encoding', '*')]); a('coding', [('Accept-Encoding', 'identity;q=0, gzip;q=0.5')]); a('coding', [('Accept-Encoding', 'zstd, x-gzip')])
+    a('coding', [('Accept-Encoding', 'GZIP')]); a('coding', [('Accept-Encoding', '')]); a('coding', [('accept-encoding', 'gzip')]); a('coding', [('Accept-Encoding', 'deflate')])
+    a('coding', [('Accept-Encoding', 'gzip'), ('Range', 'bytes=0-0')], True); a('coding', [('Range', 'bytes=-1'), ('Accept-Encoding', 'gzip, br')]); a('coding', [('TE', 'gzip')]); a('coding', [('TE', 'trailers'), ('Connection', 'TE')])
+    a('coding', [('Accept-Encoding', 'gzip'), ('If-Modified-Since', FUTURE)])
+    # interim answers, bodies announced on a request that has none
+    a('expect', [('Expect', '100-continue')], True); a('expect', [('Expect', '100-Continue'), ('Content-Length', '0')]); a('expect', [('Expect', '100-continue'), ('Content-Length', '5')], True, b'hello')
+    a('expect', [('Expect', 'x-unknown')]); a('expect', [('Expect', '')]); a('expect', [('expect', '100-continue'), ('Content-Length', '5')])   # announced, not sent
+    a('body', [('Transfer-Encoding', 'chunked')], False, b'0\r\n\r\n'); a('body', [('Transfer-Encoding', 'chunked')], False, b'5\r\nhello\r\n0\r\n\r\n'); a('body', [('Transfer-Encoding', 'chunked')])
+    a('body', [('Content-Length', '5'), ('Content-Encoding', 'gzip')], False, b'hello'); a('body', [('Content-Length', '3')], False, b'hello'); a('body', [('Content-Length', '9')], False, b'hello')
+    a('body', [('Content-Type', 'application/json')]); a('body', [('Content-Length', '0'), ('Content-Type', 'text/plain')])
+    # connection management, protocol switches
+    a('connection', [('Connection', 'keep-alive')], True); a('connection', [('Connection', 'close')], True); a('connection', [('Connection', 'Keep-Alive'), ('Keep-Alive', 'timeout=5, max=100')])
+    a('connection', [('Connection', 'Upgrade, HTTP2-Settings'), ('Upgrade', 'h2c'), ('HTTP2-Settings', 'AAMAAABkAAQCAAAAAAIAAAAA')], True)
+    a('connection', [('Connection', 'Upgrade'), ('Upgrade', 'websocket'), ('Sec-WebSocket-Key', 'dGhlIHNhbXBsZSBub25jZQ=='), ('Sec-WebSocket-Version', '13')], True)
+    a('connection', [('Proxy-Connection', 'keep-alive')]); a('connection', [('Connection', 'keep-alive, close')]); a('connection', [('connection', 'CLOSE')]); a('connection', [('Upgrade', 'h2c')])
+    # the method, the target or the client named in a header
+    for v in ('GET', 'HEAD', 'OPTIONS', 'POST', 'DELETE'): a('override', [('X-HTTP-Method-Override', v)], v in ('GET', 'HEAD'))
+    a('override', [('X-HTTP-Method', 'GET')]); a('override', [('X-Method-Override', 'HEAD')]); a('override', [('x-http-method-override', 'get')])
+    a('override', [('X-Original-URL', '/c9/ten.txt')], True); a('override', [('X-Rewrite-URL', '/')]); a('override', [('X-Original-Method', 'GET')])
+    a('proxy', [('X-Forwarded-For', '203.0.113.7')]); a('proxy', [('X-Forwarded-Proto', 'https')], True); a('proxy', [('X-Forwarded-Host', 'www.example')]); a('proxy', [('Forwarded', 'for=203.0.113.7;proto=https;host=www.example')])
+    a('proxy', [('X-Forwarded-Proto', 'https'), ('X-Forwarded-Host', 'o.example'), ('X-Forwarded-Port', '443')]); a('proxy', [('Via', '1.1 proxy')]); a('proxy', [('X-Real-IP', '203.0.113.7')]); a('proxy', [('Max-Forwards', '0')], True)
+    a('proxy', [('X-Forwarded-Prefix', '/c9')]); a('proxy', [('X-Request-Id', 'req-1')]); a('proxy', [('Traceparent', '00-0af7651916cd43dd8448eb211c80319c-b7ad6b7169203331-01')])
+    a('host', [('Host', 'localhost:7878')], True); a('host', [('Host', 'www.example')]); a('host', [('Host', '')]); a('host', [('Host', 'a.example'), ('Host', 'b.example')]); a('host', [('Host', 'LOCALHOST:7878')])
+    a('host', [('Host', '[::1]:7878')]); a('host', [('Host', 'localhost:80')]); a('host', [('Host', '127.0.0.1:7878')])
+    # negotiation, preferences, client hints (the server advertises Accept-CH / Critical-CH itself), caches
+    a('negotiate', [('Accept', 'image/png')], True); a('negotiate', [('Accept', 'text/html')]); a('negotiate', [('Accept', '*/*;q=0')]); a('negotiate', [('Accept', 'application/json, text/plain;q=0.5')])
+    a('negotiate', [('Accept', 'text/html,application/xhtml+xml,application/xml;q=0.9,image/avif,image/webp,*/*;q=0.8')], True); a('negotiate', [('Accept-Language', 'de-DE, de;q=0.9')]); a('negotiate', [('Accept-Charset', 'iso-8859-1')])
+    a('negotiate', [('Accept', 'image/webp')]); a('negotiate', [('Accept', '')]); a('negotiate', [('Accept-Ranges', 'none')]); a('negotiate', [('Accept-Datetime', PAST)])
+    a('prefer', [('Prefer', 'return=minimal')], True); a('prefer', [('Prefer', 'return=representation')]); a('prefer', [('Want-Digest', 'sha-256')], True); a('prefer', [('Want-Repr-Digest', 'sha-256=10')]); a('prefer', [('Want-Content-Digest', 'sha-256=10')])
+    a('cache', [('Cache-Control', 'no-cache')], True); a('cache', [('Cache-Control', 'only-if-cached')]); a('cache', [('Cache-Control', 'max-age=0')]); a('cache', [('Pragma', 'no-cache')]); a('cache', [('Cache-Control', 'no-store, no-transform')])
+    a('hints', [('Save-Data', 'on')], True); a('hints', [('DPR', '2'), ('Width', '320'), ('Viewport-Width', '320')]); a('hints', [('Sec-CH-UA', '"Chromium";v="120"'), ('Sec-CH-UA-Mobile', '?1'), ('Sec-CH-UA-Platform', '"Android"')])
+    a('hints', [('Downlink', '0.1'), ('ECT', 'slow-2g'), ('RTT', '3000')]); a('hints', [('Device-Memory', '0.25')]); a('hints', [('Sec-GPC', '1'), ('DNT', '1')]); a('hints', [('Upgrade-Insecure-Requests', '1')])
+    a('fetch', [('Sec-Fetch-Mode', 'navigate'), ('Sec-Fetch-Dest', 'document'), ('Sec-Fetch-Site', 'none'), ('Sec-Fetch-User', '?1')]); a('fetch', [('Sec-Fetch-Mode', 'no-cors'), ('Sec-Fetch-Dest', 'image'), ('Sec-Fetch-Site', 'cross-site')], True)
+    a('fetch', [('Sec-Fetch-Mode', 'cors'), ('Sec-Fetch-Site', 'same-site')]); a('fetch', [('Sec-Purpose', 'prefetch')], True); a('fetch', [('Purpose', 'prefetch')]); a('fetch', [('X-Requested-With', 'XMLHttpRequest')])
+    a('fetch', [('Referer', 'http://o.example/app/')]); a('fetch', [('Referer', 'http://localhost:7878/')]); a('fetch', [('User-Agent', 'Googlebot/2.1 (+http://www.google.com/bot.html)')], True); a('fetch', [('User-Agent', 'curl/8.5.0')])
+    a('fetch', [('User-Agent', '')]); a('fetch', [('From', 'bot@example.org')])
+    # credentials
+    a('credentials', [('Cookie', 'session=abc; theme=dark')], True); a('credentials', [('Authorization', 'Basic dXNlcjpwYXNz')], True); a('credentials', [('Authorization', 'Bearer t0ken')]); a('credentials', [('Proxy-Authorization', 'Basic dXNlcjpwYXNz')])
+    a('credentials', [('Cookie', '')]); a('credentials', [('Authorization', 'Basic')]); a('credentials', [('X-Api-Key', 'k')]); a('credentials', [('X-CSRF-Token', 't')])
+    return S_
+
+PRE = [('Origin', 'http://o.example'), ('Access-Control-Request-Method', 'PUT'), ('Access-Control-Request-Headers', 'X-Custom')]
+
+def vocab_sets(quick=False):
+    """every header NAME the source of the tree under test mentions (a header a change teaches the server shows up here by itself), with
+    values under which a comparison, a switch or a number takes its other branch"""
+    have = {n.lower() for _, _, hs, _ in feature_sets() for n, _ in hs} | {'origin', 'range', 'access-control-request-method', 'access-control-request-headers', 'content-length', 'host'}
+    vals = ['*', '1', 'true', FUTURE, '99999999999999999999', 'gzip', 'close', '"x"', '0', 'bytes', 'http://o.example', '']
+    out = []
+    for i, n in enumerate(x for x in G.vocab_headers() if x.lower() not in have):
+        out.append(('vocabulary', False, [(n, vals[i % len(vals)])], b''))
+        if not quick: out += [('vocabulary', False, [(n, vals[(i * 5 + 3 + j) % len(vals)])], b'') for j in range(3)]
+    return out
+
+def kinds_of(T, Gp):
+    """one target for every kind of servable path: [(kind, target)]"""
+    want = ['file', 'dir', 'dir/', 'fallback', 'link', 'dirlink/', 'empty', 'big', 'builtin', 'builtin-own-file']
+    first = {}
+    for tgt, n, kind in T: first.setdefault(kind, tgt)
+    out = [(k, first[k]) for k in want if k in first]
+    for p in ('/', '/style.css', '/script.js', '/favicon.svg'):
+        if p not in [t for _, t in out]: out.append(('builtin-page', p))
+    out += [(k, tg) for tg, n, k in Gp['side'] if k in ('side-newer', 'side-older', 'side-fallback', 'side-dir/')] + [('size-3000', '/c9n/t3000.html'), ('html-document', '/c9n/full.html')]
+    return out
+
+def fam_feature(rng, o, T, Gp, quick, k=0):
+    """ONE feature the server does not have today, asked for by its header, on the kinds of servable path: alone and inside a preflight (the
+    grants are due all the same).  Activating values: quick 4 kinds + a built-in page (rotating), thorough every kind on both entry points;
+    the others: quick 1 kind, thorough 4; the vocabulary of the source: 1 value x 1 kind, thorough 4 values x 2 kinds."""
+    kinds = kinds_of(T, Gp)
+    pages = [kq for kq in kinds if kq[0] in ('builtin-page', 'builtin', 'builtin-own-file')]
+    i = 0
+    for feat, hot, hs, body in feature_sets() + vocab_sets(quick):
+        i += 1
+        if quick:
+            tg = [kinds[(i + k + j * 5) % len(kinds)] for j in range(4)] + [pages[(i + k) % len(pages)]] if hot else [kinds[(i * 3 + k) % len(kinds)]]
+        else:
+            tg = kinds if hot else [kinds[(i + k + j * 5) % len(kinds)] for j in range(2 if feat == 'vocabulary' else 4)]
+        for j, (kind, tgt) in enumerate(tg):
+            pre = PRE[:2 + (i + j) % 2]
+            for entry in (('proc', 'preq') if (not quick and feat != 'vocabulary') else (('proc', 'preq')[(i + j) % 2],)):
+                o.triple('feature-' + feat, tgt, hs, entry, body=body)
+                if (i + j) % 2 == 0 or (not quick and feat != 'vocabulary'):
+                    o.triple('feature-' + feat, tgt, (pre + hs) if i % 3 else (hs + pre), ('proc', 'preq')[(i + j + 1) % 2] if quick else entry, body=body)
+
+def fam_side(rng, o, Gp, quick):
+    """a file and its NEIGHBOURS: precompressed side files (newer, older and made from other text, not compressed at all, without the file,
+    larger than the file, of the page behind a fallback, of a directory index), files that describe headers; with every Accept-Encoding that
+    selects or refuses a side file, alone, with a Range, with a condition; sizes around the thresholds of compress-on-the-fly"""
+    aes = ['gzip', 'gzip, deflate, br', 'br', 'br;q=1.0, gzip;q=0.8, *;q=0.1', 'identity', 'gzip;q=0', '*', 'GZIP', 'x-gzip', 'deflate, gzip;q=1.0, *;q=0.5']
+    i = 0
+    for tgt, n, kind in Gp['side'] + Gp['size']:
+        for ae in (aes if not quick else [aes[0], aes[1 + (i % 2)], aes[3 + i % 7]] if kind.startswith('side') else [aes[i % 2]]):
+            i += 1
+            hs = [('Accept-Encoding', ae)]
+            if i % 4 == 1: hs = hs + [('Range', ['bytes=0-0', 'bytes=-1', 'bytes=0-', 'bytes=0-0,2-3'][(i // 4) % 4])]
+            if i % 4 == 3: hs = [[('Origin', 'http://o.example')], PRE, [('If-Modified-Since', FUTURE)], BROWSER[:4]][(i // 4) % 4] + hs
+            for entry in (('proc', 'preq') if (not quick or kind in ('side-newer', 'side-older')) else (('proc', 'preq')[i % 2],)):
+                o.triple('side', tgt, hs, entry, order=ORDERS[(i // 3) % 6] if i % 3 == 0 else 'GHO')
+        o.triple('side', tgt, [], ('proc', 'preq')[i % 2])
+
+FAM_OF = {'name': 'name', 'name-fallback': 'name', 'escaped': 'escaped', 'dir-without-index': 'dirs', 'dir': 'dirs', 'dir/': 'dirs', 'not-a-regular-file': 'links-to-devices', 'file': 'links-to-devices'}
+
+def fam_content(rng, o, Gp, quick):
+    """contents a rewriting step touches (a document with head and body, byte order marks, CRLF text, include directives, templates, markdown,
+    text that is not UTF-8, white space a minifier removes), names that need escaping and their escaped spellings, directories without an
+    index page, other default documents, queries a feature may read"""
+    qs = ['', '?download=1', '?raw', '?callback=cb', '?pretty', '?v=1', '?_method=HEAD', '?_method=GET', '?format=json', '?w=100&h=50', '?gzip=1', '?nocache=1', '?lang=de', '?inline', '?t=1700000000']
+    i = 0
+    for tgt, n, kind in Gp['content'] + Gp['name'] + Gp['escaped'] + Gp['dirs'] + Gp['special']:
+        i += 1
+        hss = [[], [('Accept-Encoding', 'gzip')], [('Range', 'bytes=0-0')], [('Origin', 'http://o.example')], PRE, [('Accept', 'text/html')], [('Range', 'bytes=1-')], [('If-None-Match', '*')]]
+        pick = hss if not quick else [hss[0]] + ([hss[1 + i % 7]] if kind not in ('escaped', 'not-a-regular-file', 'dir-without-index') or i % 3 == 0 else [])
+        for j, hs in enumerate(pick):
+            q = qs[(i + j * 4) % len(qs)] if (j and kind not in ('escaped',)) else ''
+            for entry in (('proc', 'preq') if not quick else (('proc', 'preq')[(i + j) % 2],)):
+                o.triple(FAM_OF.get(kind, 'content'), tgt + q, hs, entry)
+    for q in qs[1:]:
+        i += 1
+        for tgt in (['/c9n/pretty.json', '/c9n/full.html', '/c9/', '/'] if not quick else [['/c9n/pretty.json', '/c9n/full.html', '/c9/', '/', '/c9n/doc'][i % 5]]):
+            o.triple('query', tgt + q, [[], [('Origin', 'http://o.example'), ('Access-Control-Request-Method', 'DELETE')]][i % 2], ('proc', 'preq')[(i // 2) % 2])
+
+def fam_first(rng, o, Gp, quick):
+    """the FIRST request a process sees for a path is a HEAD or an OPTIONS (every other family has long asked with GET): paths of every kind
+    that only this family names, in every order, a HEAD twice before the GET, a GET again after the HEAD"""
+    orders = ['HGO', 'OGH', 'HOG', 'OHG', 'HHGO', 'HGHO', 'OOGH', 'GHGO', 'HGGO', 'OHGH']
+    hss = [[], [('Range', 'bytes=0-0')], [('Accept-Encoding', 'gzip')], [('Origin', 'http://o.example'), ('Access-Control-Request-Method', 'PUT')], [('If-Modified-Since', FUTURE)], [('Range', 'bytes=-1'), ('Origin', 'http://o.example')]]
+    for i, (tgt, n, kind) in enumerate(Gp['fresh']):
+        entry = ('proc', 'preq')[(i // 2) % 2] if kind in ('fresh-file', 'fresh-side', 'fresh-link') else 'proc'
+        o.triple('first', tgt, hss[(i * 5 + i // 6) % len(hss)] if i % 2 else [], entry, order=orders[i % len(orders)])
+        if i % 3 == 0:
+            # the same path again, with OTHER headers, again with HEAD / OPTIONS first: what an earlier answer left behind (a range, a coding, an origin) must not show
+            for j in range(3):
+                o.triple('first', tgt, hss[(i + j + 1) % len(hss)], entry, order=orders[(i + j + 1) % 4])
+
+HOSTS = [('localhost:7878', 'http://localhost:3000'), ('localhost:7878', 'https://localhost:7878'), ('o.example', 'https://o.example'), ('o.example:7878', 'http://o.example'), ('O.EXAMPLE:7878', 'http://o.example'),
+         ('127.0.0.1:7878', 'http://localhost:7878'), ('api.o.example', 'http://o.example'), ('o.example', 'http://o.example:8080'), ('[::1]:7878', 'http://[::1]:8080'), ('o.example.', 'http://app.o.example'),
+         ('localhost', 'null'), ('xn--e1afmkfd.xn--p1ai', 'http://xn--e1afmkfd.xn--p1ai:8080')]
+
+def fam_hostorigin(rng, o, T, quick, cfg_vocab=False):
+    """Host (and what a proxy says about host and scheme) NEXT TO Origin: always a different origin than the server's own (other scheme, other
+    port, other name, a sub-domain, a name written in other case) - the browser sends a preflight for each of them, the grants are due"""
+    first = {}
+    for tgt, n, kind in T: first.setdefault(kind, tgt)
+    tgts = [first[k] for k in ('file', 'dir/', 'fallback', 'link') if k in first] + ['/', '/style.css']
+    i = 0
+    pairs = HOSTS if not cfg_vocab else [('o.example:7878', 'http://o.example'), ('app.example', 'https://app.example:8443'), ('O.EXAMPLE', 'http://o.example'), ('localhost:7878', 'https://app.example:8443')]
+    for host, og in pairs:
+        other = 'http' if og.startswith('https') else 'https'       # what the proxy reports is never the asker's own origin either
+        for extra in ([], [('X-Forwarded-Proto', other)], [('X-Forwarded-Host', 'www.public.example'), ('X-Forwarded-Proto', other)], [('Forwarded', 'host=www.public.example;proto=%s' % other)], [('Referer', og + '/app/index.html')],
+                      [('Cookie', 'sid=1')], [('Sec-Fetch-Mode', 'cors'), ('Sec-Fetch-Site', 'same-site')], [('Access-Control-Request-Private-Network', 'true')]):
+            i += 1
+            if quick and extra and (i + len(host)) % 4: continue
+            pre = [('Origin', og), ('Access-Control-Request-Method', ['PUT', 'DELETE', 'POST', 'PATCH'][i % 4])] + ([('Access-Control-Request-Headers', ['content-type', 'X-Custom', 'x-one, content-type'][i % 3])] if i % 2 else [])
+            hs = [[('Host', host)] + extra + pre, pre + extra + [('Host', host)], [('Host', host)] + pre + extra][i % 3]
+            for tgt in ([tgts[i % len(tgts)]] if quick else tgts):
+                o.triple('host-origin', tgt, hs, ('proc', 'preq')[i % 2])
+
+def fam_stream(rng, o, T, Gp, quick):
+    """what the client RECEIVES when the transport takes a few bytes per write call, and when a second request follows the first in the same piece:
+    the answers are read as a stream (every buffer), an interim answer is skipped, a further answer is not a body"""
+    first = {}
+    for tgt, n, kind in T: first.setdefault(kind, tgt)
+    small = [first[k] for k in ('file', 'dir', 'fallback', 'empty') if k in first] + ['/c9n/t150.css']
+    tgts = small + [first[k] for k in ('big',) if k in first] + ['/', '/favicon.svg', '/c9n/t3000.html']
+    i = 0
+    for ws in ('c:1', 'c:7', 'c:1000', 'c:4096', 's:1.1.1', 's:17', 's:1000.1', 'c:65536'):
+        pool = small if ws in ('c:1', 'c:7') else tgts       # the transport keeps every buffer it is offered: few bytes per call only for short answers
+        for tgt in (pool if not quick else [pool[(i + j) % len(pool)] for j in (0, 3)]):
+            i += 1
+            o.triple('stream', tgt, [[], [('Range', 'bytes=0-0,1-1')], PRE, [('Range', 'bytes=1-')]][i % 4], ('proc', 'preq')[i % 2], ws=ws)
+    tails = [G.req('GET', '/c9/ten.txt'), G.req('HEAD', '/c9/ten.txt'), G.req('GET', '/missing'), G.req('OPTIONS', '/c9/ten.txt', headers=PRE), b'\r\n', b'GET', b'\r\n\r\n' + G.req('GET', '/'), b'0\r\n\r\n',
+             G.req('GET', '/c9/ten.txt', headers=[('Connection', 'close')]) + G.req('GET', '/c9/one.bin')]
+    for tl in tails:
+        for hs in ([], [('Connection', 'keep-alive')], [('Content-Length', '0')], PRE + [('Connection', 'keep-alive')]):
+            i += 1
+            if quick and i % 2: continue
+            o.triple('pipelined', tgts[i % len(tgts)], hs, ('proc', 'preq')[(i // 2) % 2], tail=tl, version=['HTTP/1.1', 'HTTP/1.1', 'HTTP/1.0'][i % 3])
+
+def fam_parts(rng, o, T, quick):
+    """very many parts in one Range (as many as the request buffer holds), parts of a large file that add up to a multiple of it"""
+    first = {}
+    for tgt, n, kind in T: first.setdefault(kind, tgt)
+    for n, tgt in ((40, '/c9/ten.txt'), (300, '/c9/b256.bin'), (1900, '/c9/ten.txt'), (700, '/c9/')):
+        if quick and n > 700 and not rng.chance(1, 2): continue
+        o.triple('parts', tgt, [('Range', 'bytes=' + ','.join('%d-%d' % (j % 10, j % 10) for j in range(n)))], ('proc', 'preq')[n % 3 == 0])
+    if 'big' in first:
+        o.triple('parts', first['big'], [('Range', 'bytes=' + ','.join(['0-'] * (4 if quick else 24)))], 'proc')
+        o.triple('parts', first['big'], [('Range', 'bytes=0-8191,8192-8192,8193-,-1,-8193')], 'preq')
+
+# ------------------------------------------------------------------ the machine's own files behind links (no model: it does not have them)
+def sparse_path():
+    import os, tempfile
+    return os.path.join(tempfile.gettempdir(), 'rwsv-c09-sparse-%d' % os.getpid())
+
+HUGE = (1 << 32) + 10
+
+def special_setup():
+    """a sparse file of 4 GiB + 10 bytes OUTSIDE every tree (a manifest reads the files of a tree): only ranges of it are ever asked for"""
+    with open(sparse_path(), 'wb') as fh:
+        fh.truncate(HUGE)
+        for off in (0, (1 << 31) - 1, (1 << 31), (1 << 32) - 1, (1 << 32), HUGE - 1):
+            fh.seek(off); fh.write(b'\x01')
+
+def special_cleanup():
+    import os
+    try: os.unlink(sparse_path())
+    except OSError: pass
+
+def special_tree(rng):
+    t = S.gen_tree(rng, small=True)
+    root = t.cwd + b'/'
+    t.link(root + b'c9s/huge.bin', sparse_path().encode()); t.link(root + b'c9s/huge.html', sparse_path().encode())
+    t.link(root + b'c9s/version.txt', b'/proc/version'); t.link(root + b'c9s/status', b'/proc/self/status'); t.link(root + b'c9s/page.html', b'/proc/version')
+    t.link(root + b'c9s/proc', b'/proc/self'); t.link(root + b'c9s/hostname', b'/etc/hostname'); t.file(root + b'c9s/plain.txt', b'plain')
+    return t
+
+def fam_special(rng, o, quick):
+    n = HUGE
+    m31, m32 = 1 << 31, 1 << 32
+    rs = ['bytes=0-0', 'bytes=%d-%d' % (m31 - 1, m31), 'bytes=%d-%d' % (m31, m31), 'bytes=%d-%d' % (m32 - 1, m32), 'bytes=%d-' % (n - 1), 'bytes=%d-' % n, 'bytes=-1', 'bytes=-10', 'bytes=%d-%d' % (m32, n), 'bytes=%d-%d' % (m32, n - 1),
+          'bytes=0-0,%d-%d' % (m32, m32), 'bytes=%d-%d,%d-%d,-1' % (m31 - 1, m31 - 1, m32 - 1, m32 - 1), 'bytes=%d-%d' % (m31 - 5, m31 + 5), 'bytes=%d-%d' % (n - 10, n + 10), 'bytes=%d-' % (n - 4096)]
+    for i, rv in enumerate(rs):
+        hs = [('Range', rv)] + ([('Origin', 'http://o.example')] if i % 3 == 1 else PRE if i % 3 == 2 else [])
+        o.triple('special-huge', ['/c9s/huge.bin', '/c9s/huge'][i % 5 == 4], hs, ('proc', 'preq')[i % 2], order=ORDERS[i % 6])
+    for i, tgt in enumerate(('/c9s/version.txt', '/c9s/status', '/c9s/page', '/c9s/proc/status', '/c9s/proc/cmdline', '/c9s/hostname', '/c9s/plain.txt', '/c9s/proc/', '/c9s/proc/environ')):
+        for j, hs in enumerate(([], [('Range', 'bytes=0-0')], [('Range', 'bytes=0-')], [('Range', 'bytes=-1')], PRE)):
+            o.triple('special-proc', tgt, hs, ('proc', 'preq')[(i + j) % 2], order=ORDERS[(i + j) % 6])
